@@ -976,6 +976,10 @@ impl FatVolume {
     where
         D: BlockDevice,
     {
+        // The (up to two) directory blocks scanned before the current one, most
+        // recent first: a long-name run of up to 20 fragments in front of the
+        // entry may have started there.
+        let mut previous_blocks: [Option<BlockIdx>; 2] = [None, None];
         match &self.fat_specific_info {
             FatSpecificInfo::Fat16(fat16_info) => {
                 // Root directories on FAT16 have a fixed size, because they use
@@ -1003,9 +1007,15 @@ impl FatVolume {
                         // Either we delete it OK, or we carry on, or we hit the end of
                         // the directory / some catastrophic error reading/writing the disk.
                         let slots = Self::fat16_slots_in_block(dir_info.cluster, fat16_info.root_entries_count, nth);
-                        if self.delete_entry_in_block(block_cache, match_name, block_idx, slots)? {
+                        if let Some(run_goes_on) =
+                            self.delete_entry_in_block(block_cache, match_name, block_idx, slots)?
+                        {
+                            if run_goes_on {
+                                self.delete_trailing_lfn(block_cache, &previous_blocks)?;
+                            }
                             return Ok(());
                         }
+                        previous_blocks = [Some(block_idx), previous_blocks[0]];
                     }
                     // if it's not the root dir, find the next cluster so we can keep looking
                     if cluster != ClusterId::ROOT_DIR {
@@ -1040,14 +1050,18 @@ impl FatVolume {
                     {
                         // Either we delete it OK, or we carry on, or we hit the end of
                         // the directory / some catastrophic error reading/writing the disk.
-                        if self.delete_entry_in_block(
+                        if let Some(run_goes_on) = self.delete_entry_in_block(
                             block_cache,
                             match_name,
                             block_idx,
                             Block::LEN / OnDiskDirEntry::LEN,
                         )? {
+                            if run_goes_on {
+                                self.delete_trailing_lfn(block_cache, &previous_blocks)?;
+                            }
                             return Ok(());
                         }
+                        previous_blocks = [Some(block_idx), previous_blocks[0]];
                     }
                     // Find the next cluster
                     current_cluster = match self.next_cluster(block_cache, cluster) {
@@ -1072,16 +1086,23 @@ impl FatVolume {
     ///
     /// Only the first `slots` entries of the block are looked at.
     ///
-    /// Returns `Ok(true)` if the entry was deleted, `Ok(false)` if the name is
-    /// not in this block but may be in a later one, and `Err(Error::NotFound)`
-    /// if the block holds the end-of-directory marker.
+    /// The long-file-name fragments directly in front of the entry belong to
+    /// it and are marked as deleted with it; otherwise the next file created
+    /// in this slot under the same short name would show up under the old
+    /// long name.
+    ///
+    /// Returns `Ok(Some(_))` if the entry was deleted - `Some(true)` if the
+    /// long-name run in front of it reaches back to the start of this block and
+    /// may go on in the previous one - `Ok(None)` if the name is not in this
+    /// block but may be in a later one, and `Err(Error::NotFound)` if the block
+    /// holds the end-of-directory marker.
     fn delete_entry_in_block<D>(
         &self,
         block_cache: &mut BlockCache<D>,
         match_name: &ShortFileName,
         block_idx: BlockIdx,
         slots: usize,
-    ) -> Result<bool, Error<D::Error>>
+    ) -> Result<Option<bool>, Error<D::Error>>
     where
         D: BlockDevice,
     {
@@ -1102,12 +1123,63 @@ impl FatVolume {
                 let start = i * OnDiskDirEntry::LEN;
                 // set first byte to the 'unused' marker
                 block[start] = 0xE5;
+                // ... and that of the long-name fragments in front of it
+                let run_goes_on = Self::mark_lfn_run_deleted(block, i);
                 trace!("Updating directory");
                 block_cache.write_back().map_err(Error::DeviceError)?;
-                return Ok(true);
+                return Ok(Some(run_goes_on));
             }
         }
-        Ok(false)
+        Ok(None)
+    }
+
+    /// Marks the long-file-name fragments in the slots before `end` (going
+    /// backwards) as deleted. Returns true if every slot down to the start of
+    /// the block was such a fragment (or `end` is 0): the run may then go on in
+    /// the previous block of the directory.
+    fn mark_lfn_run_deleted(block: &mut Block, end: usize) -> bool {
+        let mut i = end;
+        while i > 0 {
+            let start = (i - 1) * OnDiskDirEntry::LEN;
+            let in_use = block[start] != 0x00 && block[start] != 0xE5;
+            // (the attribute byte is at offset 11 of an entry)
+            let is_lfn = Attributes::create_from_fat(block[start + 11]).is_lfn();
+            if in_use && is_lfn {
+                block[start] = 0xE5;
+                i -= 1;
+            } else {
+                return false;
+            }
+        }
+        true
+    }
+
+    /// Marks the long-file-name fragments at the end of the given directory
+    /// blocks (most recent first) as deleted, for as long as the run goes on.
+    fn delete_trailing_lfn<D>(
+        &self,
+        block_cache: &mut BlockCache<D>,
+        previous_blocks: &[Option<BlockIdx>; 2],
+    ) -> Result<(), Error<D::Error>>
+    where
+        D: BlockDevice,
+    {
+        for block_idx in previous_blocks.iter().flatten() {
+            let block = block_cache
+                .read_mut(*block_idx)
+                .map_err(Error::DeviceError)?;
+            let slots = Block::LEN / OnDiskDirEntry::LEN;
+            let last_in_use = block[(slots - 1) * OnDiskDirEntry::LEN];
+            let run_goes_on = Self::mark_lfn_run_deleted(block, slots);
+            if block[(slots - 1) * OnDiskDirEntry::LEN] != last_in_use {
+                // something was marked
+                block_cache.write_back().map_err(Error::DeviceError)?;
+            }
+            if !run_goes_on {
+                break;
+            }
+        }
+        Ok(())
     }
 
     /// Finds the next free cluster after the start_cluster and before end_cluster
